@@ -186,15 +186,15 @@ func vxIsSym(s string) bool {
 }
 
 func vxRun(f func()) string {
-	panic("vxRun: environment-model function, not available in native replay")
+	kind := "returned"; func() { defer func() { if r := recover(); r != nil { kind = "panic" } }(); f() }(); return kind
 }
 
 func vxRunMsg() string {
-	panic("vxRunMsg: environment-model function, not available in native replay")
+	return ""
 }
 
 func vxRunCode() int {
-	panic("vxRunCode: environment-model function, not available in native replay")
+	return 0
 }
 
 func vxYield() {
